@@ -89,6 +89,10 @@ Print Assumptions C07_mld_icmp_parse_total.
 
 Theorem C07_mldrec_accessors_safe : forall bs, mldrec_check_len bs = Ok tt ->
   mldrec_record_type bs <> Panic /\ mldrec_aux_data_len bs <> Panic /\ mldrec_num_srcs_ bs <> Panic /\
-  mldrec_mcast_addr bs <> Panic /\ mldrec_payload_ bs <> Panic /\ mldrec_parse bs <> Panic.
+  mldrec_mcast_addr bs <> Panic /\ mldrec_payload_ bs <> Panic.
 Proof. exact mldrec_accessors_safe. Qed.
 Print Assumptions C07_mldrec_accessors_safe.
+
+Theorem C07_mldrec_parse_total : forall bs, mldrec_parse bs <> Panic.
+Proof. exact mldrec_parse_total. Qed.
+Print Assumptions C07_mldrec_parse_total.
